@@ -79,6 +79,32 @@ func threeInputCfgs() []obs.Cfg {
 	return cs
 }
 
+// langCfgsQuick: join of a slice / chan of channels and variadic join with >= 2 inputs, dup, pipeline
+// (every place where the generated text spawns goroutines from a loop or closes over loop state).
+func langCfgsQuick() []obs.Cfg {
+	var cs []obs.Cfg
+	for _, comb := range []string{"joinslice", "joinchan", "joinvar"} {
+		for _, it := range [][]int{{1, 1}, {0, 1}, {2, 1}, {1, 1, 1}} {
+			for _, f := range []string{"r", "s"} {
+				for k := 0; k <= 1; k++ {
+					if len(it) == 3 && k == 1 {
+						continue
+					}
+					cs = append(cs, obs.Cfg{Comb: comb, Form: f, Items: it, Cap: k})
+				}
+			}
+		}
+	}
+	for _, f := range []string{"r", "s"} {
+		cs = append(cs, obs.Cfg{Comb: "dup", Form: f, Items: []int{2}, Cap: 0}, obs.Cfg{Comb: "dup", Form: f, Items: []int{2}, Cap: 1})
+	}
+	cs = append(cs, obs.Cfg{Comb: "fmap", Items: []int{2}, Cap: 1})
+	for _, it := range [][]int{{1, 1}, {2, 1}, {2, 2}} {
+		cs = append(cs, obs.Cfg{Comb: "pipeline", Items: it, Cap: 0})
+	}
+	return cs
+}
+
 func pipeCfgs(maxM, maxK, maxCap int) []obs.Cfg {
 	var cs []obs.Cfg
 	for m := 0; m <= maxM; m++ {
@@ -147,6 +173,11 @@ func checkC19(c *core.Ctx) error {
 	}
 	p.mc = append(p.mc, chaosMC())
 	p.realCfgs = p.cfgs
+	// language-version variant: the configurations where generated code starts goroutines inside a loop
+	p.langCfgs, p.langStress = langCfgsQuick(), 2
+	if !c.Quick() {
+		p.langCfgs, p.langStress = dedup(append(append(append(linearCfgs(2, 2), joinCfgs(2, 2, 1)...), pipeCfgs(2, 2, 1)...), threeInputCfgs()...)), 15
+	}
 	if err := runPlan(c, p); err != nil {
 		return err
 	}
